@@ -359,12 +359,13 @@ func (w *c18aWorld) Run(c *kernel.RunCtx) {
 					out.Fee, out.Err = feeID(f, site), errClass(err)
 				case "SUpdate":
 					var err error
+					var uq *bt.FeeQuote
 					if in.Empty {
-						_, err = fqs.UpdateMinerFees(in.Miner, "", op.fee)
+						uq, err = fqs.UpdateMinerFees(in.Miner, "", op.fee)
 					} else {
-						_, err = fqs.UpdateMinerFees(in.Miner, bt.FeeType(in.Type), op.fee)
+						uq, err = fqs.UpdateMinerFees(in.Miner, bt.FeeType(in.Type), op.fee)
 					}
-					out.Err = errClass(err)
+					out.Err, out.QClass = errClass(err), quoteClass(uq)
 				}
 				record(t, in, call, out)
 			}
@@ -448,6 +449,41 @@ func (w *c18aWorld) Run(c *kernel.RunCtx) {
 		return
 	}
 	// ---- linearizability ----
+	// UpdateMinerFees is a two-level operation (find the miner's quote, then write into that quote) and the statement
+	// does not promise that the two levels are one atomic step: an implementation may let go of the container between
+	// them. The two readings differ only when a registration of the same miner overlaps the update; such an update is
+	// judged as what it certainly is -- a write into the quote it returned -- and when that quote is one the container
+	// made itself (no handle to name it by) the history is not put to the sequential model at all (the race detector
+	// and the stored-value and quiescence oracles have already judged it).
+	skipLin := false
+	for i := range history {
+		in := history[i].Input.(models.FQOp)
+		out := history[i].Output.(models.FQOut)
+		if in.Kind != "SUpdate" || in.Empty || out.Err != models.ErrNone {
+			continue
+		}
+		overlaps := false
+		for j := range history {
+			o := history[j].Input.(models.FQOp)
+			if (o.Kind == "SAddMiner" || o.Kind == "SAddDefault") && o.Miner == in.Miner && history[j].Call < history[i].Return && history[i].Call < history[j].Return {
+				overlaps = true
+			}
+		}
+		if !overlaps {
+			continue
+		}
+		c.Count("probe.update_overlapping_registration_of_same_miner", 1)
+		if out.QClass >= 0 {
+			history[i].Input = models.FQOp{Kind: "QAdd", Quote: out.QClass, Type: in.Type, Fee: in.Fee}
+			history[i].Output = models.FQOut{}
+		} else {
+			skipLin = true
+		}
+	}
+	if skipLin {
+		c.Count("probe.history_not_put_to_the_sequential_model", 1)
+		return
+	}
 	model := porcupine.Model{
 		Init: func() interface{} { return st },
 		Step: func(state, input, output interface{}) (bool, interface{}) {
